@@ -138,6 +138,47 @@ def monitor(sc, res):
     return fails
 
 
+def readonly_tools_case():
+    """`hash` and `xsd-schema-check` (manifest, chain with -df, with and without -xsd, also with a schema folder that
+    lacks the combined directory schema) leave every file and folder as it was, whatever they answer"""
+    import hashlib, shutil, glob
+    fails = []
+
+    def snap(top):
+        out = {}
+        for dp, dns, fns in os.walk(top):
+            for n in dns + fns:
+                p = os.path.join(dp, n)
+                st = os.lstat(p)
+                out[os.path.relpath(p, top)] = (st.st_mode, st.st_mtime_ns, st.st_size if n in fns else None, hashlib.sha1(open(p, "rb").read()).hexdigest() if n in fns and os.path.isfile(p) else None)
+        return out
+
+    with rt.tempdir("c14t_") as d:
+        root = os.path.join(d, "root")
+        rt.mk(root, {"a.txt": "a", "s/b.txt": "b"})
+        rt.run("create", [root, "-h", "md5"], "2026-03-01 12:00:01")
+        rt.run("create", [root, "-h", "sha1"], "2026-03-01 12:00:02")
+        xs = os.path.join(d, "schemas")
+        os.makedirs(xs)
+        for f in glob.glob(os.path.join(rt.REPO, "xsd", "*.xsd")):
+            if "__combined" not in os.path.basename(f):
+                shutil.copy(f, xs)
+        man = sorted(glob.glob(os.path.join(root, "ascmhl", "*.mhl")))[0]
+        chain = os.path.join(root, "ascmhl", "ascmhl_chain.xml")
+        calls = [("hash", [os.path.join(root, "a.txt"), "-h", "md5"]), ("hash", [os.path.join(root, "s", "b.txt"), "-h", "c4"]),
+                 ("xsd_schema_check", [man]), ("xsd_schema_check", [chain, "-df"]), ("xsd_schema_check", [man, "-xsd", os.path.join(xs, "ASCMHL.xsd")]),
+                 ("xsd_schema_check", [chain, "-df", "-xsd", os.path.join(xs, "ASCMHLDirectory.xsd")]), ("xsd_schema_check", [chain, "-xsd", os.path.join(xs, "ASCMHL.xsd")])]
+        for cmd, args in calls:
+            before = snap(d)
+            # (xsd-schema-check looks for its default schema relative to the working directory: run it from the checkout)
+            x = rt.run(cmd, args, None, rt.REPO)
+            after = snap(d)
+            if before != after:
+                ch = sorted(k for k in set(before) | set(after) if before.get(k) != after.get(k))
+                fails.append({"what": f"{cmd.replace('_', '-')} {' '.join(os.path.relpath(a, d) if a.startswith('/') else a for a in args)} (exit {x.exit}) created, changed or removed {ch[:4]}", "replay": {"case": "readonly tools", "cmd": cmd, "args": [os.path.relpath(a, d) if a.startswith("/") else a for a in args]}})
+    return fails
+
+
 def run(ctx):
     install_audit()
     scs = _scn.standard_pool(ctx, ctx.scale(70, 1200), ctx.scale(30, 500))
@@ -180,6 +221,10 @@ def run(ctx):
                {"op": "diff", "at": "", "spell": "relative"}, {"op": "create", "at": "", "h": ["md5"], "now": "2026-03-01 12:00:02", "spell": "relative", "sf": ["a.txt"]}, {"op": "flatten", "at": "", "spell": "relative"},
                {"op": "verifypl", "at": "", "spell": "relative"}]
         scs.insert(0, {"profile": "c14-shell-name", "impl_only": True, "root": nm, "tree": {"a.txt": "a", "s/b.txt": "b"}, "ops": ops})
+    # -sf names a file that lies OUTSIDE the root (beside it): whatever the run makes of it, nothing above the root changes
+    scs.insert(0, {"profile": "c14-sf-outside", "impl_only": True, "root": "shoot/reel", "tree": {"a.txt": "a", "s/b.txt": "b", "../notes.txt": "outside the root"},
+                   "ops": [{"op": "create", "at": "", "h": ["md5"], "now": "2026-03-01 12:00:01"}, {"op": "create", "at": "", "h": ["md5"], "now": "2026-03-01 12:00:02", "sf": ["../notes.txt", "a.txt"]},
+                           {"op": "verify", "at": ""}]})
     # a packing list verified on a later day than it was written (and again a month later)
     scs.insert(0, {"profile": "c14-pl-later", "impl_only": True, "root": "root", "tree": {"a.txt": "a", "s/b.txt": "b"},
                    "ops": [{"op": "create", "at": "", "h": ["md5"], "now": "2026-03-01 12:00:01"}, {"op": "flatten", "at": "", "now": "2026-03-01 13:00:00"}, {"op": "verifypl", "at": "", "now": "2026-03-01 14:00:00"},
@@ -197,7 +242,7 @@ def run(ctx):
             scs.insert(0, {"profile": "c14-odd-state", "impl_only": True, "root": "root", "tree": {"A/x.txt": "x", "A/B/y.txt": "y", "t.txt": "t"},
                            "ops": [{"op": "create", "at": "A", "h": ["md5"], "now": "2026-03-01 12:00:01"}, {"op": "create", "at": "", "h": ["md5"], "now": "2026-03-01 12:00:02"},
                                    {"op": "create", "at": "", "h": ["sha1"], "now": "2026-03-01 12:00:03"}] + state + ro})
-    return _scn.run_scn(ctx, scs, monitor, assumptions=["reading adopted: the modification time of a directory that RECEIVES a new ascmhl folder changes by the documented effect", "Python-level audit events (open for writing, mkdir, rename, remove, rmdir, utime, chmod, truncate, shutil.*) plus a full snapshot (type, bytes, mode, mtime) before/after every command"])
+    return _scn.run_scn(ctx, scs, monitor, extra_fails=readonly_tools_case(), assumptions=["reading adopted: the modification time of a directory that RECEIVES a new ascmhl folder changes by the documented effect", "Python-level audit events (open for writing, mkdir, rename, remove, rmdir, utime, chmod, truncate, shutil.*) plus a full snapshot (type, bytes, mode, mtime) before/after every command"])
 
 
 def replay(ctx, path):
